@@ -168,9 +168,10 @@ func (ent *entityNode) innerRef(name string) *schema_j5pb.Field {
 func (ent *entityNode) findStatus(end string) (string, bool) {
 	for _, status := range ent.Schema.Status {
 		if status.Name == end {
+			// as the status enum spells it: prefix + the option name as declared
 			return fmt.Sprintf("%s_STATUS_%s",
 				strcase.ToScreamingSnake(ent.Schema.Name),
-				strcase.ToScreamingSnake(status.Name),
+				status.Name,
 			), true
 		}
 	}
